@@ -242,3 +242,18 @@ Qed.
 
 Theorem normalize_equiv fuel d left tr : wf d -> normalize fuel d left = Ok tr -> Forall (interchanger_equiv d) tr.
 Proof. intros W H. eapply legal_path_all_equiv. eapply normalize_legal; eauto. Qed.
+
+(* canonicity reduces to uniqueness of normal diagrams inside one class: what is left
+   unproved is exactly the hypothesis U (confluence of the interchanger system) *)
+Theorem normal_form_canonical_if_unique_normal d d' left fuel fuel' n n' :
+  (forall a b, interchanger_equiv d a -> interchanger_equiv d b ->
+     is_normal a left -> is_normal b left -> a = b) ->
+  interchanger_equiv d d' ->
+  normal_form fuel d left = Ok n -> normal_form fuel' d' left = Ok n' -> n = n'.
+Proof.
+  intros U E H H'. apply U.
+  - eapply normal_form_equiv; exact H.
+  - eapply Relation_Operators.rst_trans; [exact E|]. eapply normal_form_equiv; exact H'.
+  - eapply normal_form_normal; exact H.
+  - eapply normal_form_normal; exact H'.
+Qed.
